@@ -145,6 +145,34 @@ theorem c07_no_lost_update (c : Config K T Op Req Ans) (hr : Reachable s c) (i :
   rw [h] at this
   exact this.2.2
 
+/-- **A rejection is justified by the sequential semantics**: a writer that is about to report failure computed on
+the state after all changes committed so far, and the sequential repository rejects its operation in that state —
+no change is refused because of a stale or half-updated view. -/
+theorem c07_rejection_justified (c : Config K T Op Req Ans) (hr : Reachable s c) (i : Nat) (op : Op) (loc : K × T)
+    (h : c.threads i = .writer op .failed loc) :
+    s.apply (run s c.log) op = none ∧ (c.known, c.index) = run s c.log := by
+  have hinv := inv_reachable s c hr
+  have hl := holder_of_inCS s c hinv i (by rw [h]; simp [inCS])
+  have := hinv.held i hl
+  rw [h] at this
+  exact ⟨this.2, this.1⟩
+
+/-- **No conflicting access to the shared state** (the model-level content of "no data race"): a writer inside the
+section in which the known rules and the pointer to the index are read and written is the only such writer, and the
+pointer is swapped only while no lookup is inside its read section. -/
+theorem c07_no_conflicting_access (c : Config K T Op Req Ans) (hr : Reachable s c) (i j : Nat) :
+    (inCS (c.threads i) → inCS (c.threads j) → i = j) ∧
+      (rwHolder (c.threads i) → ¬ activeReader (c.threads j)) := by
+  refine ⟨fun hi hj => ?_, fun hi hj => ?_⟩
+  · have h1 := holder_of_inCS s c (inv_reachable s c hr) i hi
+    have h2 := holder_of_inCS s c (inv_reachable s c hr) j hj
+    rw [h1] at h2; exact Option.some.inj h2
+  · have hl := linv_reachable s c hr
+    have h1 := (hl.rww_iff i).mpr hi
+    have h2 := hl.rw_excl (by rw [h1]; simp)
+    have h3 := (hl.rd_mem j).mpr hj
+    rw [h2] at h3; cases h3
+
 /-- **No change is lost, none is applied twice.** The commit log consists of exactly the operations of the writers
 that have published their change, each once, in commit order (`owners` lists the committing threads without
 repetition; a thread is listed iff it got as far as publishing; the k-th log entry is the operation of the k-th
